@@ -210,3 +210,30 @@ def rule_value_truth(db: ProgramDB) -> List[Instance]:
         out.append(inst("VALUE-TRUTH", UNDECIDED, "", "value-role-sites",
                         f"only {n_value} value-role evaluation sites found (13 confirmed by reading): roles not resolved"))
     return out
+
+
+def rule_reentrant_flag(db: ProgramDB) -> List[Instance]:
+    """An expression object can be in two positions of one query (v = x.val used as an operand and as a condition), so a
+    mapping generator can be re-entered while it is suspended.  Its per-call request 'also yield false rows' must therefore
+    be read from the call's own argument; the copy kept on the object is overwritten by the re-entry."""
+    out = []
+    owners = truthiness_filter_owners(db)
+    dm = db.cls("DomainMapping")
+    gens = sorted({m for m, _, _ in owners if m.cls.is_subclass_of(dm)}, key=lambda f: f.qualname)
+    if not gens:
+        out.append(inst("REENTRANT-FLAG", INFO, "", "no-value-filter", "no mapping generator filters by value truthiness"))
+        return out
+    for m in gens:
+        # reads of self._yield_when_false_ that can execute after a suspension point / a child evaluation
+        reads = [x for x in own_nodes(m.node) if isinstance(x, ast.Attribute) and x.attr == "_yield_when_false_"
+                 and isinstance(x.ctx, ast.Load) and isinstance(x.value, ast.Name) and x.value.id == "self"]
+        loops = [l for l in own_nodes(m.node) if isinstance(l, ast.For)]
+        bad = [r for r in reads if any(any(y is r for y in ast.walk(l)) for l in loops)]
+        ok = not bad
+        out.append(inst("REENTRANT-FLAG", HOLDS if ok else VIOLATION, m, f"{m.short}[false-row request]",
+                        "the filter reads the request for false rows from the call's argument" if ok else
+                        f"inside its loop the generator reads `self._yield_when_false_` (line {bad[0].lineno}): when the same "
+                        f"expression object is also evaluated in condition position while this evaluation (as an operand) is "
+                        f"suspended, the attribute is overwritten and the remaining falsy values are dropped",
+                        line=bad[0].lineno if bad else m.lineno))
+    return out
